@@ -1,11 +1,12 @@
 SPEC = {
     "id": "C05",
-    "level": "exploration",
-    "sidecars": [], "functions": [],
+    "level": "other",
+    "sidecars": ['normalize_url'],
+    "functions": ['ural/normalize_url.py:should_strip_fragment', 'ural/normalize_url.py:qsl_sort_key', 'ural/normalize_url.py:should_strip_query_item'],
     "bounded": ["bcheck.c05"],
-    "technique": "bounded run-time checking of component-level contracts on the real normalize_url against an independent URL denotation",
     "explanation": (
-        "BOUNDED only. For a pool of URLs (host heuristics x path shapes x query / fragment families, unparseable strings, random grammar URLs) and "
+        "Deductive extras (all inputs, pyvc): the decision helpers of normalize_url - should_strip_fragment (routing test), qsl_sort_key (total, injective), should_strip_query_item (filter consultation order; no exception escapes, incl. the callable combination entries). "
+        "Deciding step BOUNDED: For a pool of URLs (host heuristics x path shapes x query / fragment families, unparseable strings, random grammar URLs) and "
         "option sets (defaults, every single option flipped, everything off, seeded random combinations, quoted / platform_aware), the re-parsed result "
         "is compared component-wise with the parsed (redirection-resolved, cleaned) input: host = input labels minus whole irrelevant labels / leading "
         "amp-, non-default port kept, path in {resolved input minus AMP marker / index page / trailing slash}, query items a sub-list of the input's "
